@@ -1155,4 +1155,31 @@ theorem Schema.restrict_fields (S : Schema) (V : Ver) (id : Nat) (h : (S.structD
   obtain ⟨g, _, rfl⟩ := hf
   rfl
 
+/-! an INDEPENDENT plausibility check of the annotations (and hence of the pinned table, which was first produced
+    from them): KMIP numbers its tags and its operation codes chronologically, so the version that created a tag /
+    an operation can be read off its number. -/
+/-- the KMIP version that CREATED a tag (tags are numbered chronologically). -/
+def tagVer (t : Nat) : Ver :=
+  if t ≤ 0x4200A1 then (1, 0) else if t ≤ 0x4200B7 then (1, 1) else if t ≤ 0x4200D3 then (1, 2)
+  else if t ≤ 0x4200F7 then (1, 3) else (1, 4)
+/-- the KMIP version that created an operation code. -/
+def opVer (op : Nat) : Ver :=
+  if op ≤ 0x1C then (1, 0) else if op ≤ 0x1E then (1, 1) else if op ≤ 0x29 then (1, 2) else (1, 4)
+/-- the version that created a structure, from its stable key: payload keys are `1000000 + 2·op + direction`
+    (below every tag number), the others are tags. -/
+def keyVer (k : Nat) : Ver := if 1000000 ≤ k ∧ k < 0x420000 then opVer ((k - 1000000) / 2) else tagVer k
+def verMax (a b : Ver) : Ver := if Ver.lt a b then b else a
+/-- fields whose tag is younger than their structure and that carry no range starting at the tag's version or later -/
+def lateUngated (S : Schema) : List (Nat × Nat) :=
+  (List.range S.structs.length).flatMap fun id =>
+    let keys := structKeys S id
+    if keys.isEmpty then [] else
+    let sv := keys.foldl (fun acc k => verMax acc (keyVer k)) (0, 0)
+    (S.structDef id).fields.filterMap fun f =>
+      if Ver.lt sv (tagVer f.tag) then
+        match f.vrange with
+        | some { start := some s, stop := none } => if Ver.lt s (tagVer f.tag) then some (id, f.tag) else none
+        | _ => some (id, f.tag)
+      else none
+
 end Kmip
